@@ -8,7 +8,7 @@ pub fn scenarios(prop: &str) -> Vec<Box<dyn Scenario>> {
         "C01" => vec![Box::new(scen_queue::QueueFifo), Box::new(scen_queue::QueueFifoSustained), Box::new(scen_queue::QueueChain)],
         "C04" => vec![Box::new(scen_queue::QueueFlushBarrier), Box::new(scen_queue::QueueFlushLiveness)],
         "C05" => vec![Box::new(scen_queue::QueueShutdown), Box::new(scen_global::GlobalDetach)],
-        "C06" => vec![Box::new(scen_uow::UowClose)],
+        "C06" => vec![Box::new(scen_uow::UowClose), Box::new(scen_uow::UowChain)],
         "C13" => vec![Box::new(scen_uow::UowSlots)],
         "C14" => vec![Box::new(scen_emf::EmfHistory)],
         "C18" => vec![Box::new(scen_time::Timers)],
